@@ -55,7 +55,7 @@ pub fn run_hungarian(data: &Value) -> Vec<Line> {
     match res {
         Ok((mm, sc)) => {
             let ms = mm.iter().map(|x| x.to_string()).collect::<Vec<_>>().join(",");
-            lines.push(Line::corr(&["C07"], "H", text.clone(), format!("M {} {}", ms, sc)).feat(&feat).trivial(live <= 1));
+            lines.push(Line::corr(&["C07", "C02"], "H", text.clone(), format!("M {} {}", ms, sc)).feat(&feat).trivial(live <= 1));
             lines.push(Line::spec(
                 &["C07"],
                 "HS",
@@ -98,6 +98,8 @@ pub fn gen_node(r: &mut Rng, tier: &str, rooms: u8, nondyadic: bool, name: &'sta
                 if i % 12 == 5 { gen::gen_f32_corner(r) } else { gen::gen_f32_shrink_does_not_fit(r) }
             } else if rooms == 2 && i % 20 == 7 {
                 gen::gen_many_courses_rooms(r)
+            } else if rooms == 2 && i % 20 == 13 {
+                gen::gen_fixed_room_squeeze(r)
             } else {
                 gen::gen_instance(r, &p)
             };
@@ -159,12 +161,12 @@ pub fn run_node(data: &Value) -> Vec<Line> {
                         }
                     }
                 }
-                lines.push(Line::corr(&["C01", "C02", "C06", "C08", "C10", "C17"], "N", payload, dump_to_text(&d)).feat(&feat).trivial(visited == 1 && !matches!(d, caobab_api::NodeDump::Infeasible(..))));
+                lines.push(Line::corr(&["C01", "C02", "C05", "C06", "C08", "C10", "C11", "C17"], "N", payload, dump_to_text(&d)).feat(&feat).trivial(visited == 1 && !matches!(d, caobab_api::NodeDump::Infeasible(..))));
                 match d {
                     caobab_api::NodeDump::Feasible(a, s) => {
                         // the specification predicates, evaluated in Lean on the real code's answer
                         lines.push(Line::spec(
-                            &["C01", "C06", "C08"],
+                            &["C01", "C05", "C06", "C08", "C11"],
                             "A",
                             format!("{}#{}", it, fmt_assign(&a)),
                             format!("valid=true hard=true score={} room=true", s),
@@ -261,7 +263,7 @@ pub fn parse_babnode_debug(s: &str) -> Option<NodeData> {
 // solve: whole runs of caobab::solve under the scheduler shim
 
 pub fn gen_solve(r: &mut Rng, tier: &str, rooms: u8, name: &'static str) -> Vec<Case> {
-    let n = scale(tier, 160, 6000);
+    let n = scale(tier, if rooms == 0 { 600 } else { 160 }, 6000);
     (0..n)
         .map(|i| {
             let small = i % 2 == 0; // brute-force sized
@@ -276,6 +278,9 @@ pub fn gen_solve(r: &mut Rng, tier: &str, rooms: u8, name: &'static str) -> Vec<
             let mut inst = gen::gen_instance(r, &p);
             if rooms == 2 && i % 4 == 2 {
                 gen::make_fixed_unpopular(r, &mut inst);
+            }
+            if rooms == 2 && i % 10 == 7 {
+                inst = gen::gen_fixed_room_squeeze(r);
             }
             if rooms >= 1 && i % 10 == 3 {
                 // the f32 corners of the room stage, as whole runs
@@ -294,7 +299,7 @@ fn solve_once(inst: &Inst, threads: u32, s: &Sched) -> sched::RunOut<Vec<Option<
     let courses = Arc::new(courses);
     let parts = Arc::new(parts);
     let rooms = inst.rooms.clone();
-    sched::run_sched(s, 30_000, move || cdecao::caobab::solve(courses, parts, rooms.as_ref(), false, threads))
+    sched::run_sched(s, 5_000, move || cdecao::caobab::solve(courses, parts, rooms.as_ref(), false, threads))
 }
 
 pub fn run_solve(data: &Value) -> Vec<Line> {
@@ -308,6 +313,9 @@ pub fn run_solve(data: &Value) -> Vec<Line> {
     for (j, s) in scheds.iter().enumerate() {
         let threads = data["threads"][j].as_u64().unwrap_or(1) as u32;
         let out = solve_once(&inst, threads, s);
+        if std::env::var("VH_STEPS").is_ok() {
+            eprintln!("STEPS {}", out.steps);
+        }
         let tag = format!("threads={} sched={}", threads, s.to_json());
         if out.deadlock || out.budget {
             lines.push(Line::direct(&["C04", "C10"], false, format!("caobab::solve did not finish ({}): {}", if out.budget { "step budget" } else { "no runnable thread" }, tag)));
@@ -498,8 +506,22 @@ pub fn run_engine(data: &Value) -> Vec<Line> {
                 if !has_panic {
                     lines.push(Line::direct(&["C09"], res.as_ref().map(|x| x.1) == best,
                         format!("returned {:?}, best leaf of the tree {:?} ({})", res.as_ref().map(|x| x.1), best, tag)).trivial(!nontrivial));
-                    lines.push(Line::direct(&["C04"], sched::stats_ok(st) && out.leftover == 0,
-                        format!("statistics executed {} = {}+{}+{}, leftover threads {} ({})", st.num_executed_subproblems, st.num_no_solution, st.num_infeasible, st.num_feasible, out.leftover, tag)).trivial(!nontrivial));
+                    // generated = 1 + children of every executed infeasible node (from the pop notes)
+                    let mut generated = 1u32;
+                    for e in out.trace.iter() {
+                        if let cdecao::verif::sched::Event::Note(_, s) = e {
+                            if s.ends_with(" solve") {
+                                if let Some(id) = s.split(", ").nth(1).and_then(|x| x.split(')').next()).and_then(|x| x.parse::<usize>().ok()) {
+                                    if let Kind::Infeasible(kids, _) = &tree.nodes[id].1 {
+                                        generated += kids.len() as u32;
+                                    }
+                                }
+                            }
+                        }
+                    }
+                    let adds_up = sched::stats_ok(st) && generated == st.num_executed_subproblems + st.num_bound_subproblems;
+                    lines.push(Line::direct(&["C04"], adds_up && out.leftover == 0,
+                        format!("statistics: executed {} = {}+{}+{}; generated {} vs executed + bound = {}; leftover threads {} ({})", st.num_executed_subproblems, st.num_no_solution, st.num_infeasible, st.num_feasible, generated, st.num_executed_subproblems + st.num_bound_subproblems, out.leftover, tag)).trivial(!nontrivial));
                     verdicts.push(res.as_ref().map(|x| x.1));
                 }
                 sched::stats_json(res.as_ref().map(|(s, sc)| (*s as u64, *sc)), st)
